@@ -175,11 +175,17 @@ CLAIMS["C38"] = dict(engine="locks", level="model_checking",
     note="Trusted: TLC/SANY, the python driver, the lock-tracing hook (the three lock macros return a recording guard under the cfg), parking_lot's task-fair RwLock policy as modelled in Locks.tla. Limits: acquisitions not made through the macros are inventoried in the evidence but not composed; one execution per task kind (data-dependent branches are not explored); tokio scheduling is not modelled. The known findings (method Call holding the AddressSpace lock across session lookups; one SessionManager shared by all transports) are reported as KNOWN-FINDING lines.",
     text="The acquisition program (ordered acquire/release of lock instances with modes) of every server task kind - each service of the message handler, the subscription timer body, session creation/activation/closing, transport teardown, on two connections of one real server - is recorded from the real code; Locks.tla composes every pair (thorough: plus sampled triples) of the distinct programs under task-fair RwLock semantics and TLC reports every group that can reach a state where no process can step; the class-level held->acquired relation is computed in TLA+ and every pair of classes taken in both orders is reported at the program that departs from the documented order.")
 
+
+CLAIMS["C33"] = dict(engine="services", level="exploration",
+    note="Trusted: TLC (enumeration of the request universe, seeded RandomElement for sequences), the harness's concretisation table abstract request -> real request structure, catch_unwind and one-process-per-case re-runs for aborts. This is exploration driven by the model: the specification owns the request universe and the predicate, not the services' semantics (those are C19-C32, C34, C40).",
+    text="Services.tla defines the request universe of the services dispatched by MessageHandler::handle_message (31 services x adversarial parameter classes: missing / null ids, self references, unknown namespaces, reserved characters in browse names, malformed index ranges, mismatching attribute structures, malformed event where-clauses, NaN / zero / huge numbers, bogus continuation points and ids; 30141 requests) and the predicate 'answered by a response or ServiceFault, no failure, the session still served afterwards'; TLC enumerates the universe (thorough: all of it; quick: a seeded sample) and draws sequences of 4 requests; each is built as a real request and sent through the real message handler on an activated session, followed by two subscription timer ticks and a probe Read; TLC judges every observation with the predicate.")
+
 NOT_APPLICABLE = {
     "C41": "identity of a third-party YAML serializer over configuration records: no state, transition or case analysis for a TLA+ specification to own, and TLC cannot enumerate the string space that matters (DESIGN.md section 5)",
     "C42": "encode/decode fidelity of serde implementations with identity as the only oracle: outside what a TLA+ model decides (DESIGN.md section 5)",
 }
 ENGINES = [
+    {"name": "services", "path": "/verif/harness/src/e_services.rs", "serves_properties": ["C33"], "kind_free_text": "concretises the abstract requests of Services.tla and sends them through the real MessageHandler; judged by TraceServices.tla"},
     {"name": "locks", "path": "/verif/harness/src/e_locks.rs", "serves_properties": ["C38"], "kind_free_text": "records lock acquisition programs of every server task kind from the real code (impl -> spec); composed by spec/Locks.tla"},
     {"name": "renew", "path": "/verif/harness/src/e_renew.rs", "serves_properties": ["C14"], "kind_free_text": "replays Renew.tla task interleavings on real client/server secure channels with harness-held FIFO wires; judged by TraceRenew.tla"},
     {"name": "handshake", "path": "/verif/harness/src/e_handshake.rs", "serves_properties": ["C10", "C15"], "kind_free_text": "feeds frame sequences of Handshake.tla to a real TcpTransport; judged by TraceHandshake.tla"},
